@@ -2234,6 +2234,18 @@ class ktensor:
             modes[:-1] <= modes[1:]
         ), "Modes must be sorted in ascending order"
 
+        # Validate the whole request before touching the ktensor
+        needed = 0
+        for k in modes:
+            if k == -1:
+                needed += self.ncomponents
+            elif 0 <= k < self.ndims:
+                needed += self.shape[k] * self.ncomponents
+            else:
+                assert False, f"Invalid mode: {k}"
+            if len(data) < needed:
+                assert False, "Data is too short"
+
         loc = 0  # Location in data array
         for k in modes:
             if k == -1:
